@@ -144,6 +144,19 @@ def build_class(run, cs):
 
             fset2.__name__ = mn
             ns[mn] = bp.setter(fset2)
+        elif k == "protected_prop":
+            gp = mk_method(mn)
+
+            def pget(self, _g=gp):
+                return _g(self)
+
+            pget.__name__ = mn
+
+            def pset(self, value, _g=gp):
+                _g(self)
+
+            pset.__name__ = mn
+            ns[mn] = property(pget, pset)
         elif k == "prop":
             g = mk_method(mn)
 
@@ -263,6 +276,11 @@ def build_class(run, cs):
                 def c(self):
                     return run.hit(_sid, "inv", self) and list.__len__(self) <= 2
 
+            elif _content == "x_le2":
+
+                def c(self):
+                    return run.hit(_sid, "inv", self) and tuple.__getitem__(self, 0) <= 2
+
             else:
 
                 def c(self):
@@ -375,6 +393,10 @@ def expected(scn, cname, op):
         if mk in ("method", "amethod", "dunder", "alias_of", "lambda", "nowraps"):
             return set(oc), set(oc)
         return set(), set()
+    if kind in ("get", "set", "del") and member_kind(scn, cname, op.get("member")) == "protected_prop":
+        if kind == "get":
+            return set(), set()
+        return None if os_ else (set(), set())
     if kind == "get":
         return set(oc), set(oc)
     if kind in ("set", "del"):
@@ -408,7 +430,7 @@ def generate(r, tier, forms=False):
     classes_shape = [shapes_root[0]]
 
     def gen_members(c, level):
-        pool = [("m%d" % level, "method"), ("n%d" % level, "method"), ("_p%d" % level, "protected"), ("__q%d" % level, "private"), ("s%d" % level, "static"), ("c%d" % level, "class"), ("pr%d" % level, "prop")]
+        pool = [("m%d" % level, "method"), ("n%d" % level, "method"), ("_p%d" % level, "protected"), ("__q%d" % level, "private"), ("s%d" % level, "static"), ("c%d" % level, "class"), ("pr%d" % level, "prop"), ("_pp%d" % level, "protected_prop")]
         if engine == "loop":
             pool.append(("am%d" % level, "amethod"))
             pool.append(("am%d" % level, "amethod"))
@@ -444,6 +466,8 @@ def generate(r, tier, forms=False):
         inv = {"check_on": r.choice(inv_mix)}
         if root["shape"] == "listlike" and r.random() < 0.6:
             inv["content"] = "le2"  # the invariant also looks at the content the constructor fills in
+        if root["shape"] == "namedtuple" and r.random() < 0.6:
+            inv["content"] = "x_le2"  # the invariant looks at the field value given to __new__
         root["invs"].append(inv)
     classes.append(root)
     depth = r.choice([0, 1, 1, 2]) if root["dbc"] and root["shape"] in ("plain", "slots", "dataclass") else 0
@@ -502,7 +526,7 @@ def generate(r, tier, forms=False):
             label = "o%d" % nobj
             nobj += 1
             op = {"op": "new", "cls": c["name"], "obj": label}
-            if hierarchy(scn, c["name"])[-1].get("shape") == "listlike":
+            if hierarchy(scn, c["name"])[-1].get("shape") in ("listlike", "namedtuple"):
                 op["content"] = r.choice([0, 1, 2, 3, 3])
             if r.random() < 0.12 and core_has_ctor_body(scn, c["name"]):
                 al, _, _ = inv_sets(scn, c["name"])
@@ -515,7 +539,7 @@ def generate(r, tier, forms=False):
             if "ctor_raise" in op and r.random() < 0.5:
                 op["drop"] = True  # forget the failed object entirely (its address may be reused by the next instance)
             ops.append(op)
-            content_bad = op.get("content", 0) > 2 and any(i.get("content") == "le2" for x in hierarchy(scn, c["name"]) for i in x.get("invs", ()))
+            content_bad = op.get("content", 0) > 2 and any(i.get("content") in ("le2", "x_le2") for x in hierarchy(scn, c["name"]) for i in x.get("invs", ()))
             if "ctor_raise" not in op and "flags" not in op and not content_bad:
                 objs[label] = c["name"]
             elif "ctor_raise" in op and not op.get("drop"):
@@ -544,6 +568,10 @@ def generate(r, tier, forms=False):
             ops.append({"op": "repr", "obj": label})
         elif members:
             m = r.choice(members)
+            if m["kind"] == "protected_prop":
+                op = {"op": r.choice(["get", "set"]), "obj": label, "member": m["name"]}
+                ops.append(op)
+                continue
             if m["kind"] in ("prop", "prop_ext"):
                 acc = ["get"] + (["set", "set"] if m.get("set") else []) + (["del"] if m.get("del") else [])
                 op = {"op": r.choice(acc), "obj": label, "member": m["name"]}
@@ -640,7 +668,7 @@ def _resolve_c03(run, scn):
                 if _root_shape(world, td["cls"]) == "listlike":
                     o = cls(list(range(td.get("content", 1))))
                 elif shape == "namedtuple":
-                    o = cls(1)
+                    o = cls(td.get("content", 1))
                 elif shape == "dataclass" or not _spec_has_init(world, td["cls"]):
                     o = cls()
                 else:
@@ -836,7 +864,7 @@ def judge(scn, run):
             if op.get("content", 0) > 2:
                 for x in hierarchy(scn, cname):
                     for i_, inv in enumerate(x.get("invs", ())):
-                        if inv.get("content") == "le2":
+                        if inv.get("content") in ("le2", "x_le2"):
                             state[label]["%s/inv%d" % (x["name"], i_)] = False
         else:
             cname = cls_of.get(label)
